@@ -646,3 +646,59 @@ def _(tier, seed):
         if len(failures) >= 3:
             break
     return dict(evaluations=evals, distinct=len(distinct), failures=failures)
+
+
+from pyvc.contracts import stub
+
+
+# -- Tj, ' and " with their operands (ISO Table 109: `string '` = T* then `string Tj`; `aw ac string "` = `aw Tw`, `ac Tc`, then `string '`) -----------------
+_sTw = stub("pdfminer.pdfinterp:PDFPageInterpreter.do_Tw", ["self", "space"])
+_sTc = stub("pdfminer.pdfinterp:PDFPageInterpreter.do_Tc", ["self", "space"])
+_sTa = stub("pdfminer.pdfinterp:PDFPageInterpreter.do_T_a", ["self"])
+_sTJ = stub("pdfminer.pdfinterp:PDFPageInterpreter.do_TJ", ["self", "seq"])
+_sq = stub("pdfminer.pdfinterp:PDFPageInterpreter.do__q", ["self", "s"])
+_SHOW_STUBS = {"pdfminer.pdfinterp:PDFPageInterpreter.do_Tw": _sTw, "pdfminer.pdfinterp:PDFPageInterpreter.do_Tc": _sTc,
+               "pdfminer.pdfinterp:PDFPageInterpreter.do_T_a": _sTa, "pdfminer.pdfinterp:PDFPageInterpreter.do_TJ": _sTJ}
+
+
+def _show_trace(trace):
+    """the call trace with `'` expanded into T*, TJ"""
+    out = []
+    for nm, b in trace:
+        nm = nm.split(".")[-1]
+        if nm == "do__q":
+            out += [("do_T_a", {}), ("do_TJ", {"seq": [b["s"]]})]
+        else:
+            out.append((nm, b))
+    return out
+
+
+c = contract("pdfminer.pdfinterp:PDFPageInterpreter.do_Tj", props=["C05"])
+c.param("self", T.Obj("pdfminer.pdfinterp:PDFPageInterpreter")).param("s", T.Const(b"text"))
+c.skip_cross = True
+c.inline = True
+c.stubs = _SHOW_STUBS
+c.ens("is-TJ-of-the-one-string", lambda s, trace: (lambda t: len(t) == 1 and t[0][0] == "do_TJ" and isinstance(t[0][1]["seq"], list) and len(t[0][1]["seq"]) == 1
+                                                   and t[0][1]["seq"][0] is s)(_show_trace(trace)))
+
+c = contract("pdfminer.pdfinterp:PDFPageInterpreter.do__q", props=["C05"])
+c.param("self", T.Obj("pdfminer.pdfinterp:PDFPageInterpreter")).param("s", T.Const(b"text"))
+c.skip_cross = True
+c.inline = True
+c.stubs = _SHOW_STUBS
+c.ens("next-line-then-show-the-string", lambda s, trace: (lambda t: [x[0] for x in t] == ["do_T_a", "do_TJ"] and len(t[1][1]["seq"]) == 1 and t[1][1]["seq"][0] is s)(_show_trace(trace)))
+
+c = contract("pdfminer.pdfinterp:PDFPageInterpreter.do__w", props=["C05"])
+c.param("self", T.Obj("pdfminer.pdfinterp:PDFPageInterpreter")).param("aw", T.Real()).param("ac", T.Real()).param("s", T.Const(b"text"))
+c.skip_cross = True
+c.inline = True
+c.stubs = dict(_SHOW_STUBS, **{"pdfminer.pdfinterp:PDFPageInterpreter.do__q": _sq})
+def _dq_spec(aw, ac, s, trace):
+    t = _show_trace(trace)
+    if not (len(t) == 4 and sorted(x[0] for x in t[:2]) == ["do_Tc", "do_Tw"] and [x[0] for x in t[2:]] == ["do_T_a", "do_TJ"]
+            and len(t[3][1]["seq"]) == 1 and t[3][1]["seq"][0] is s):
+        return False
+    return And(*[eq(x[1]["space"], aw if x[0] == "do_Tw" else ac) for x in t[:2]])
+
+
+c.ens("word-spacing-aw-character-spacing-ac-then-next-line-and-show", _dq_spec)
